@@ -395,6 +395,7 @@ pub fn def_c03() -> PropDef {
         assumptions: ASSUME,
         spaces: vec![Space { name: "world", decode: decode_c03, plan: |t| Plan::Random(t.n(40_000, 800_000)) }],
         differential: false,
+        floors: &[("probes", 30.0)],
     }
 }
 
@@ -406,6 +407,7 @@ pub fn def_c04() -> PropDef {
         assumptions: ASSUME,
         spaces: vec![Space { name: "world", decode: decode_c04, plan: |t| Plan::Random(t.n(20_000, 500_000)) }],
         differential: false,
+        floors: &[("probes", 80.0), ("qualifying_words", 1.5)],
     }
 }
 
@@ -417,6 +419,7 @@ pub fn def_c13() -> PropDef {
         assumptions: ASSUME,
         spaces: vec![Space { name: "world", decode: decode_c13, plan: |t| Plan::Random(t.n(80_000, 1_500_000)) }],
         differential: false,
+        floors: &[("probes", 8.0)],
     }
 }
 
@@ -428,5 +431,6 @@ pub fn def_c14() -> PropDef {
         assumptions: ASSUME,
         spaces: vec![Space { name: "world", decode: decode_c14, plan: |t| Plan::Random(t.n(50_000, 1_000_000)) }],
         differential: false,
+        floors: &[("split_probes", 12.0), ("join_probes", 0.8)],
     }
 }
